@@ -194,7 +194,7 @@ class Ctx:
         if p.returncode not in (0, 1, 3) and not (race and p.returncode == 66):
             raise Broken("driver failed in %s (exit %d): %s" % (name, p.returncode, (p.stdout + p.stderr)[-2000:]))
         try:
-            rep = json.loads(p.stdout.strip().splitlines()[-1])
+            rep = json.loads(p.stdout.strip().split("\n")[-1])
         except Exception:
             raise Broken("driver output unreadable in %s: %s" % (name, (p.stdout + p.stderr)[-2000:]))
         if rep["cases"] < min_cases and not rep.get("hang"):
@@ -420,7 +420,7 @@ class Ctx:
                 for _ in range(2):            # twice: the failure must recur in both ordered runs
                     try:
                         p = subprocess.run(cmd, capture_output=True, text=True, errors="replace", timeout=3600)
-                        rep = json.loads(p.stdout.strip().splitlines()[-1])
+                        rep = json.loads(p.stdout.strip().split("\n")[-1])
                     except Exception:
                         rep = {"mismatches": []}
                     cur = set(m["state"] for m in rep["mismatches"])
